@@ -53,14 +53,9 @@ func vAutomata() []vAutoSpec {
 	}
 }
 
-// H08_dict: dictionary enumeration with automata and key ranges on built, re-opened and merged segments.
-func H08_dict() {
-	// term t occurs in 1 or 2 documents (or not at all); 3 documents
+// vDictBatch: three documents; term ti occurs in card[ti] documents (freq 1, no locations).
+func vDictBatch(card []int) []index.Document {
 	nDocs := 3
-	if vParam("lite", 0) == 1 {
-		vDictAlphabet = []string{"", "a", "ab", "b"}
-	}
-	card := make([]int, len(vDictAlphabet))
 	docs := make([]*vDoc, nDocs)
 	for d := range docs {
 		id := fmt.Sprint("d", d)
@@ -68,7 +63,6 @@ func H08_dict() {
 	}
 	terms := make([][]vTerm, nDocs)
 	for ti, t := range vDictAlphabet {
-		card[ti] = vChoice(fmt.Sprint("card", ti), 3)
 		for d := 0; d < card[ti]; d++ {
 			// occurrences start at document ti%nDocs so that terms are spread
 			terms[(ti+d)%nDocs] = append(terms[(ti+d)%nDocs], vTerm{term: t, freq: 1})
@@ -79,11 +73,25 @@ func H08_dict() {
 		docs[d].fields = append(docs[d].fields, vTextField("f", 3, terms[d], index.IndexField, nil, nil, 't'))
 		batch = append(batch, docs[d])
 	}
+	return batch
+}
+
+// H08_dict: dictionary enumeration with automata and key ranges on built, re-opened and merged segments.
+func H08_dict() {
+	// term t occurs in 1 or 2 documents (or not at all); 3 documents
+	if vParam("lite", 0) == 1 {
+		vDictAlphabet = []string{"", "a", "ab", "b"}
+	}
+	card := make([]int, len(vDictAlphabet))
+	for ti := range vDictAlphabet {
+		card[ti] = vChoice(fmt.Sprint("card", ti), 3)
+	}
+	batch := vDictBatch(card)
 	var z ZapPlugin
 	segI, _, err := z.newWithChunkMode(batch, DefaultChunkMode)
 	vAssert(err == nil, "build")
 	var seg segment.Segment = segI
-	prov := vChoice("prov", vParam("provs", 5)) // built, opened, merged once, merged twice
+	prov := vChoice("prov", vParam("provs", 6)) // built, opened, merged once, merged twice
 	if prov == 1 {
 		vAssert(segI.(*SegmentBase).Persist(vP("d.zap")) == nil, "persist")
 		seg, err = z.Open(vP("d.zap"))
@@ -100,6 +108,17 @@ func H08_dict() {
 			seg, err = z.Open(vP("m2.zap"))
 			vAssert(err == nil, "open2")
 		}
+	}
+	mult := 1
+	if prov == 5 {
+		// two segments with the same content merged: every term is in both inputs
+		seg2, _, err := z.newWithChunkMode(vDictBatch(card), DefaultChunkMode)
+		vAssert(err == nil, "build2")
+		_, _, err = z.Merge([]segment.Segment{segI, seg2}, []*roaring.Bitmap{nil, nil}, vP("m5.zap"), nil, nil)
+		vAssert(err == nil, "merge5")
+		seg, err = z.Open(vP("m5.zap"))
+		vAssert(err == nil, "open5")
+		mult = 2
 	}
 	if prov == 4 {
 		// merged behind another segment that lacks the field and has a deleted document
@@ -187,7 +206,7 @@ func H08_dict() {
 				c = card[ti]
 			}
 		}
-		vAssert(e.Count == uint64(c), "entry-count")
+		vAssert(e.Count == uint64(c*mult), "entry-count")
 	}
 	e, err := it.Next()
 	vAssert(err == nil && e == nil, "end")
